@@ -138,7 +138,8 @@ def run(ctx):
     # ---------------- R1 final state on every exit
     r1 = ctx.rule("R1", "every exit of the task coroutine leaves a final state in the state table")
     # pairing for escaping CancelledError: cancel_task stores CANCELLED itself
-    ct = idx.func(f"{LOCAL}:Scheduler.cancel_task")
+    from ..inline import inlined
+    ct = inlined(ctx, idx.func(f"{LOCAL}:Scheduler.cancel_task"))
     csem = CancelSem(ctx, ct, info, members)
     Explorer(csem).run(State())
     cancel_pairs = any(e[0] == "store" and e[4] == frozenset(["CANCELLED"]) for e in csem.events) and any(
@@ -282,7 +283,7 @@ def run(ctx):
             r4.violation(c, f"no write of the {suffix} log found in the task coroutine", fi.where)
             continue
         want = sem.comm_vars[pos] if sem.comm_vars else None
-        where = loc(site["write"], fi.module)
+        where = loc(site["stmt"], fi.module)
         ok = True
         if want is None or site["buffer"] != want:
             r4.violation(c, f"the {suffix} log is written from `{site['buffer']}`, not from the {('stdout', 'stderr')[pos]} buffer "
@@ -291,15 +292,12 @@ def run(ctx):
         if site["mode"] not in ("wb", "bw", "w+b", "wb+"):
             r4.violation(c + "::mode", f"log opened with mode {site['mode']!r}: bytes of the latest run must replace the file (expected 'wb')", where)
             ok = False
-        text = ast.unparse(site["open"])
-        if not (".gwf" in text and "logs" in text and sem.p_name in {n.id for n in ast.walk(site["open"]) if isinstance(n, ast.Name)}):
-            r4.violation(c + "::path", f"log path `{text[:80]}` is not <project>/.gwf/logs/<task name>{suffix}", where)
-            ok = False
-        if "working_dir" in text and dotted_has_param(site["open"], sem.p_wd):
-            r4.violation(c + "::path", "log path is built from the task's working directory instead of the project's", where)
+        want_path = "⟦PROJ⟧/.gwf/logs/⟦NAME⟧" + suffix
+        if site["path"] != want_path:
+            r4.violation(c + "::path", f"the log is written to `{site['path']}`, not to <project>/.gwf/logs/<task name>{suffix} ({want_path}) where `gwf logs` reads it", where)
             ok = False
         if ok:
-            r4.ok(c, f"{site['buffer']} -> {suffix} (mode {site['mode']})", where)
+            r4.ok(c, f"{site['buffer']} -> {site['path']} (mode {site['mode']})", where)
     # logs before the failure raise and before COMPLETED
     for o in outs:
         cause = o.state.facts.get("cause")
@@ -334,7 +332,7 @@ def run(ctx):
 
     # ---------------- R6 group kill
     r6 = ctx.rule("R6", "the kill sequence signals the whole process group of the task and reaps it", min_instances=2)
-    gk = idx.func(f"{LOCAL}:Scheduler._gentle_kill")
+    gk = inlined(ctx, idx.func(f"{LOCAL}:Scheduler._gentle_kill"), keep={"_signal_process_group"})
     ksem = KillSem(ctx, gk)
     kouts = Explorer(ksem).run(State())
     gcon = f"{gk.module.relpath}::{gk.qual}"
